@@ -368,6 +368,47 @@ template<typename T> static std::string same_map(const Ccp4<T>& a, const Ccp4<T>
 }
 
 // o_wr T row nu nv nw mode seed : write -> read identity, file and memory, both byte orders
+// o_zyx nu nv nw seed mode : a grid held in the ZYX axis order (the fast index runs along Z, as the FFT routines can
+// produce it), header made from scratch, written, read back and set up: the full-cell XYZ grid must hold, at every
+// (x,y,z), the value the ZYX grid held at its index (z,y,x); the sampling is (nw,nv,nu) along X,Y,Z.
+static std::string o_zyx(const std::vector<std::string>& w) {
+  int n[3] = {(int) to_ll(w.at(0)), (int) to_ll(w.at(1)), (int) to_ll(w.at(2))};
+  ll seed = to_ll(w.at(3));
+  int mode = (int) to_ll(w.at(4));
+  Ccp4<float> m;
+  m.grid.spacegroup = find_spacegroup_by_number(1);
+  m.grid.unit_cell.set(20.5, 31.25, 42.125, 80.5, 101.5, 95.25);
+  m.grid.set_size_without_checking(n[0], n[1], n[2]);
+  m.grid.axis_order = AxisOrder::ZYX;
+  for (size_t k = 0; k < m.grid.data.size(); ++k) m.grid.data[k] = (float) valfn(seed, (ll) k);
+  m.update_ccp4_header(mode, true);
+  std::string path = tmp_path(".ccp4");
+  m.write_ccp4_map(path);
+  Ccp4<float> r;
+  try {
+    r.read_ccp4_file(path);
+    std::remove(path.c_str());
+    r.setup(NAN, MapSetup::Full);
+  } catch (std::exception& e) {
+    std::remove(path.c_str());
+    return std::string("ZYX map written by gemmi cannot be read / set up: ") + e.what();
+  }
+  if (r.grid.axis_order != AxisOrder::XYZ) return "axis order not XYZ after setup";
+  if (r.grid.nu != n[2] || r.grid.nv != n[1] || r.grid.nw != n[0])
+    return "sampling after setup is " + std::to_string(r.grid.nu) + "x" + std::to_string(r.grid.nv) + "x" + std::to_string(r.grid.nw) +
+           ", expected " + std::to_string(n[2]) + "x" + std::to_string(n[1]) + "x" + std::to_string(n[0]);
+  for (int x = 0; x < n[2]; ++x)
+    for (int y = 0; y < n[1]; ++y)
+      for (int z = 0; z < n[0]; ++z) {
+        float want = m.grid.data[((size_t) x * n[1] + y) * n[0] + z];    // index_q(u=z, v=y, w=x)
+        float got = r.grid.get_value(x, y, z);
+        if (!(got == want))
+          return "value at x,y,z=" + std::to_string(x) + "," + std::to_string(y) + "," + std::to_string(z) + " is " +
+                 std::to_string(got) + ", the ZYX grid held " + std::to_string(want);
+      }
+  return "ok";
+}
+
 template<typename T> static std::string o_wr(const std::vector<std::string>& w) {
   int row = (int) to_ll(w.at(1));
   int n[3] = {(int) to_ll(w.at(2)), (int) to_ll(w.at(3)), (int) to_ll(w.at(4))};
@@ -839,6 +880,7 @@ static std::string handle(const std::string& cmd, const std::string& args) {
   }
   if (cmd == "setup") return w.at(0) == "f" ? do_setup<float>(w) : do_setup<int8_t>(w);
   if (cmd == "o_extent") return o_extent(w);
+  if (cmd == "o_zyx") return o_zyx(w);
   if (cmd == "o_perm") return w.at(0) == "f" ? o_perm<float>(w) : o_perm<int8_t>(w);
   if (cmd == "o_wr") return w.at(0) == "f" ? o_wr<float>(w) : o_wr<int8_t>(w);
   if (cmd == "o_asu") return o_asu(w);
